@@ -72,7 +72,16 @@ let () =
                  Caseio.out_mat (Printf.sprintf "%sinnov%d" pre i) (mat_of_lmx innov);
                  Caseio.out_mat (Printf.sprintf "%sY%d" pre i) (mat_of_lmx ymat);
                  Caseio.out_num (Printf.sprintf "%slik%d" pre i) (fl lik))
-               outs)
+               outs);
+        (* the harness' second step: the model then reports a measurement of size m + 1 *)
+        if s >= 2 && m mod s = 0 then begin
+          let ((ocomps2, ow2), mem2) =
+            c05_sukf fops sq nn (nat_of_int (m + 1)) ns nk lh lg1 lg2 lb lg ly reduced (lmx_of_mat r) alpha beta kappa pred corr_prev in
+          Caseio.out_int (pre ^ "2_lik_valid") (match mem2 with None -> 0 | Some _ -> 1);
+          let same = List.map (fun (a, b) -> (List.map (List.map fl) a, List.map (List.map fl) b)) in
+          Caseio.out_int (pre ^ "2_out_equals_pred")
+            (if same ocomps2 = same (fst pred) && List.map fl ow2 = List.map fl (snd pred) then 1 else 0)
+        end
       in
       if Caseio.has c "Rblock" then run "r_" true (Caseio.get_mat c "Rblock");
       run "f_" false rfull;
